@@ -392,6 +392,8 @@ def c19(run):
         return any(r and r.get("ok", -1) not in (0, 1) for r in rs)
     trace_stage(run, "agree", "agree", nontrivial=nontriv, ignore_checks=("returns",))
     trace_stage(run, "agree-ros2", "agree_ros2", nontrivial=nontriv, ignore_checks=("returns",))
+    # R3: the same relations hold for the definitional evaluators on a box of 41 472 two-task configurations
+    mc_stage(run, "definitional-relations", "MCAnalyses.tla", "MCAnalysesAgree.cfg", workers=8)
 
 
 @check("C17")
@@ -406,6 +408,8 @@ def c17(run):
                 session_key=lambda ln: '"op":"reset"' in ln,
                 nontrivial=lambda e: e["op"] != "reset" and any(r.get("ok", 1) != 0 for r in e["res"].values()),
                 keyfn=lambda e: {"sys": e["sys"], "op": e["op"]})
+    # R3: monotonicity of the definitional evaluators on a box of 41 472 two-task configurations
+    mc_stage(run, "definitional-monotonicity", "MCAnalyses.tla", "MCAnalysesMono.cfg", workers=8)
     trace_stage(run, "walks-ros2", "harden_ros2", spec="TraceHarden.tla", cfg="TraceHarden.cfg",
                 session_key=lambda ln: '"op":"reset"' in ln,
                 nontrivial=lambda e: e["op"] != "reset" and any(r.get("ok", 1) != 0 for r in e["res"].values()),
@@ -535,7 +539,7 @@ def c13(run):
     _cache_stage(run, "arrival")
 
 
-TABLE_KEYS = {"rbf", "sn", "lw", "eta", "cost"}
+TABLE_KEYS = {"rbf", "sn", "lw", "mj", "eta", "cost"}
 
 
 def _strip_tables(x):
